@@ -26,6 +26,7 @@ type c17Case struct {
 	Handler string `json:"handler"` // StaticDir StaticFS StaticFiles StaticFile
 	Prefix  string `json:"prefix"`
 	Encoded bool   `json:"use_encoded_path"`
+	Global  bool   `json:"global_var_named_file,omitempty"` // rux.SetGlobalVar("file", ".+") is in effect (process-global)
 	First   int    `json:"first_token"`
 	Depth   int    `json:"max_tokens"`
 }
@@ -86,10 +87,15 @@ func c17Gen(tier string, emit func(c17Case)) {
 		depth = 4
 	}
 	for _, h := range []string{"StaticDir", "StaticFS", "StaticFiles", "StaticFile"} {
-		for _, p := range []string{"/d", "/deep/d"} {
+		// "/root" = the base name of the served directory itself (a prefix/directory name coincidence)
+		for _, p := range []string{"/d", "/deep/d", "/root"} {
 			for _, enc := range []bool{false, true} {
 				for f := range c17Tokens {
 					emit(c17Case{Handler: h, Prefix: p, Encoded: enc, First: f, Depth: depth})
+					if (h == "StaticFiles" || h == "StaticDir") && !enc && f%3 == 0 {
+						// a global path variable that happens to carry the name the static handlers use internally
+						emit(c17Case{Handler: h, Prefix: p, Encoded: enc, First: f, Depth: depth, Global: true})
+					}
 				}
 			}
 		}
@@ -105,6 +111,10 @@ func c17Run(c c17Case, st *fw.Stats) []fw.Viol {
 		}
 	}
 	root := filepath.Join(c17Base, "root")
+	if c.Global {
+		rux.SetGlobalVar("file", ".+")
+		defer delete(rux.GetGlobalVars(), "file")
+	}
 	var opts []func(*rux.Router)
 	if c.Encoded {
 		opts = append(opts, rux.UseEncodedPath)
@@ -120,7 +130,7 @@ func c17Run(c c17Case, st *fw.Stats) []fw.Viol {
 	case "StaticFile":
 		r.StaticFile(c.Prefix, filepath.Join(root, "a.txt"))
 	}
-	desc := fmt.Sprintf("%s(prefix %q, root <sandbox>/root, useEncodedPath=%v)", c.Handler, c.Prefix, c.Encoded)
+	desc := fmt.Sprintf("%s(prefix %q, root <sandbox>/root, useEncodedPath=%v, global var file=%v)", c.Handler, c.Prefix, c.Encoded, c.Global)
 	probe := func(raw string) {
 		dec, err := url.PathUnescape(raw)
 		if err != nil {
@@ -204,11 +214,11 @@ func c17Run(c c17Case, st *fw.Stats) []fw.Viol {
 var c17Spec = fw.Spec[c17Case]{
 	ID:    "C17",
 	Level: "model_checking",
-	Rule: "complete enumeration: all request paths of <=3 (thorough 4) tokens over 23 tokens {.., ., empty, sub, a.txt, b.css, SECRET.txt, rootx, %2e%2e, ..%2f, %2f, \\, %5c.., %00, 'a.txt.', '.../', s.css, ..%5c, c.js, e.scss, m.mjs, acss, x.css.bak} after each mount prefix, sent with URL.RawPath = the raw string and URL.Path = its decoding, for StaticDir / StaticFS(http.Dir) / StaticFiles(css|js) / StaticFile x prefixes {/d, /deep/d} x both UseEncodedPath settings, against a real sandbox tree with marked files outside the root (parent directory, name-prefix sibling 'rootx'); " +
+	Rule: "complete enumeration: all request paths of <=3 (thorough 4) tokens over 23 tokens {.., ., empty, sub, a.txt, b.css, SECRET.txt, rootx, %2e%2e, ..%2f, %2f, \\, %5c.., %00, 'a.txt.', '.../', s.css, ..%5c, c.js, e.scss, m.mjs, acss, x.css.bak} after each mount prefix, sent with URL.RawPath = the raw string and URL.Path = its decoding, for StaticDir / StaticFS(http.Dir) / StaticFiles(css|js) / StaticFile x prefixes {/d, /deep/d, /root (= the directory's own name)} x both UseEncodedPath settings (and with a global path variable named like the handlers' internal variable), against a real sandbox tree with marked files outside the root (parent directory, name-prefix sibling 'rootx'); " +
 		"oracle: no body carries an outside marker or lists an outside directory, every 200 body is a file under the root, StaticFiles answers 200 only for allowed extensions, StaticFile only its file; non-trivial = a path containing a dot-dot in some encoding",
 	Assume: []string{"relative to the sandbox tree and the OS / file system the check runs on", "net/http's FileServer is part of the implementation under test, not of the oracle"},
 	Bounds: func(tier string) map[string]any {
-		return map[string]any{"tokens": len(c17Tokens), "max_tokens": map[string]int{"quick": 3, "thorough": 4}[tier], "handlers": 4, "prefixes": 2}
+		return map[string]any{"tokens": len(c17Tokens), "max_tokens": map[string]int{"quick": 3, "thorough": 4}[tier], "handlers": 4, "prefixes": 3}
 	},
 	Gen: c17Gen,
 	Run: c17Run,
@@ -218,7 +228,8 @@ var c17Spec = fw.Spec[c17Case]{
 		}
 		return nil
 	},
-	Batch: 1,
+	Batch:   1,
+	Workers: 1, // SetGlobalVar is process-global
 }
 
 func init() {
